@@ -425,6 +425,24 @@ theorem c15_conforms_iff (i : Info R) :
     intro a; cases a <;> simp [Addr.isExt]
   cases i <;> simp only [Info.Conforms, hint, hext]
 
+/-- **For `Message X` proper no size hypothesis is needed**: a message whose addresses are in the classes block.tlb names
+(and, if internal, carry no anycast) has a header of at most 1007 bits, so whenever its fields are in range it serialises,
+with any state-init and any body, to a cell that the strict reader and the library's parser map back to it.  (With anycast
+in an internal header the bound can be exceeded: 4 + 2·302 + 125 + 2·124 + 96 = 1077 bits.) -/
+theorem c15_conforming_round_trip (ops : CellOps R) (hl : ops.Lawful) (ht : ops.Total) (m : Msg R) (hwf : m.info.WF)
+    (hconf : m.info.Conforms) (hna : m.info.IntNoAnycast) (hinfo : (encInfo m.info).isSome)
+    (hinit : ∀ s, m.init = some s → (encStateInit s).isSome)
+    (hbody : m.body.1.length ≤ 1023 ∧ m.body.2.length ≤ 4) :
+    ∃ c, Message.serialize ops m = some c ∧ decodeMessageStrict ops c = some m ∧ Message.deserialize ops c = some m := by
+  obtain ⟨⟨ib, ir⟩, h⟩ := Option.isSome_iff_exists.mp hinfo
+  have hb := nbits_encInfo_conforms m.info hconf hna
+  rw [(enc_some_sizes h).1] at hb
+  have hI : ib.length + (if m.init.isSome then 3 else 2) ≤ 1023 := by
+    have : ib.length ≤ 1007 := hb
+    split <;> omega
+  obtain ⟨c, hs, hd⟩ := c15_strict_round_trip ops hl ht m hwf hconf h hI hinit hbody
+  exact ⟨c, hs, hd, (c15_strict_sound ops c m hd).2.2⟩
+
 /-! ### non-vacuity and tightness on a concrete cell type -/
 
 inductive T where
@@ -622,5 +640,19 @@ example : ∃ c, Message.serialize tops mRelaxed = some c ∧ decodeMessage tops
     (by simpa [mRelaxed] using hlen) (by simp [mRelaxed]) (by simp [mRelaxed])
   refine ⟨c, hs, hd, ?_⟩
   simp [decodeMessageStrict, hd, mRelaxed, Info.Conforms, Addr.isExt]
+
+/-- `m0` without its anycast is within `c15_conforming_round_trip` (no size hypothesis) -/
+def m1 : Msg T :=
+  ⟨Info.int true false false (Addr.std none 0 (List.replicate 32 17)) (Addr.std none (-1) (List.replicate 32 255))
+      ⟨2 ^ 120 - 1, some leaf⟩ (2 ^ 120 - 1) (2 ^ 120 - 1) (2 ^ 64 - 1) (2 ^ 32 - 1), m0.init, m0.body⟩
+
+example : ∃ c, Message.serialize tops m1 = some c ∧ decodeMessageStrict tops c = some m1 ∧ Message.deserialize tops c = some m1 := by
+  have hinit : ∀ s, m1.init = some s → (encStateInit s).isSome := by
+    intro s hs; simp [m1, m0] at hs; subst hs; decide +kernel
+  exact c15_conforming_round_trip tops tops_lawful tops_total m1 (by simp [m1, Info.WF, AddrWF]) (by simp [m1, Info.Conforms, Addr.isInt])
+    ⟨⟨_, _, rfl⟩, ⟨_, _, rfl⟩⟩ (by decide +kernel) hinit (by simp [m1, m0])
+
+/-- its header has exactly the maximal 1007 bits -/
+example : Enc.nbits (encInfo m1.info) = 1007 := by decide +kernel
 
 end TonVerif.Properties.C15
